@@ -711,6 +711,10 @@ func (i *Interpreter) ProcessDeliver() error {
 	} else if i.ctx.BackendResponse != nil {
 		i.ctx.Response = i.ctx.BackendResponse.Clone()
 	}
+	// e.g. return(deliver_stale) in vcl_miss but the simulator never has a stale object
+	if i.ctx.Response == nil {
+		return exception.Runtime(nil, "No object to deliver in DELIVER")
+	}
 
 	// Add Fastly related server info but values are falco's one.
 	// Note that these headers could be removed in vcl_deliver subroutine
